@@ -749,7 +749,7 @@ NEUTRAL = [
 # behaviour-preserving refactorings written by sub-agents (probe digests
 # byte-identical before/after): /verif/neutral/<region>-<k>/patch.diff.
 # Every property's check must stay silent on each of them.
-NEUTRAL_PATCHES = [f"N{i}-{k}" for i in range(1, 25) for k in range(1, 6)]
+NEUTRAL_PATCHES = [f"N{i}-{k}" for i in range(1, 31) for k in range(1, 6)]
 
 
 def _apply(root, rel, old, new):
